@@ -111,10 +111,12 @@ func runC16(c *fw.Case) {
 			// a flip may leave the decoded data intact: classify with the independent validator below
 			write(relOf(id, unc), b)
 			files = append(files, &c16File{rel: relOf(id, unc), kind: "invalid-chunk", id: id, ownFmt: true})
+			c.Fault("stored-chunk-corrupted")
 		case 7: // abandoned temporary file of a killed writer
 			rel := filepath.Join(id[:4], fmt.Sprintf(".tmp-cacnk%09d", r.IntN(1000000000)))
 			write(rel, encode(data, unc)[:r.IntN(len(data)+1)%(len(encode(data, unc))+1)])
 			files = append(files, &c16File{rel: rel, kind: "tmp"})
+			c.Fault("writer-killed-leaving-temp-file")
 		case 8: // junk
 			rel := []string{"README", filepath.Join(id[:4], "notes.txt"), filepath.Join("zz", id[:10]), id[:64] + ".bak"}[r.IntN(4)]
 			write(rel, []byte("not a chunk"))
